@@ -14,5 +14,7 @@ def run(ctx):
     binding_forms(ctx)       # (set n v e) / (define n m e): e in exactly the context derived by binding n (to the value / to the getter itself)
     from ..scen_purity import getter_purity
     getter_purity(ctx)       # a getter that keeps state (cell, thread-local, static) must still be a function of its arguments
+    from ..scen_expr import selection_name
+    selection_name(ctx)       # the column name given after `=` is kept byte for byte
     from ..conform import conformance
     conformance(ctx, ['binding'])      # the references the obligations are stated against, compared with jawk::go on concrete runs (validates the oracles; never decides)
